@@ -3,6 +3,10 @@ pub mod varint;
 pub mod sqlprobe;
 pub mod sql_where;
 pub mod budget;
+pub mod keyenc;
+pub mod keyenc_gen;
+pub mod keyenc_glue;
+pub mod keyenc_val;
 
 pub fn run(engine: &str, ctx: &Ctx) -> Report {
     match engine {
@@ -10,6 +14,7 @@ pub fn run(engine: &str, ctx: &Ctx) -> Report {
         "sqlprobe" => sqlprobe::run(ctx),
         "sql_where" => sql_where::run(ctx),
         "budget" => budget::run(ctx),
+        "keyenc" => keyenc::run(ctx),
         _ => {
             eprintln!("unknown engine {engine}");
             std::process::exit(2);
